@@ -1114,7 +1114,7 @@ def compile_script(script: str) -> bytes:
     symbols = get_symbols(script)
     return assemble(symbols, macros=macros)
 
-def parse_comptime(symbols: list[str], macros: dict = {}) -> list[str]:
+def parse_comptime(symbols: list[str], macros: dict = None) -> list[str]:
     """Preparses a list of symbols, replacing any comptime blocks with
         the compiled byte code of the block as a hex value symbol or the
         top stack item as a hex value symbol by compiling and executing
@@ -1125,6 +1125,7 @@ def parse_comptime(symbols: list[str], macros: dict = {}) -> list[str]:
     """
     new_symbols = []
     index = 0
+    macros = {} if macros is None else macros
 
     while index < len(symbols):
         symbol = symbols[index]
@@ -1172,12 +1173,13 @@ def _strip_comments(symbols: list[str]) -> list[str]:
         index += 1
     return stripped
 
-def assemble(symbols: list[str], macros: dict = {}) -> bytes:
+def assemble(symbols: list[str], macros: dict = None) -> bytes:
     """Assemble the symbols into bytecode. Raises SyntaxError and
         ValueError for invalid syntax or values.
     """
     index = 0
     code = []
+    macros = {} if macros is None else macros
     symbols = parse_comptime(_strip_comments(symbols), macros)
 
     while index < len(symbols):
